@@ -117,4 +117,6 @@ def main(tier):
     rep.attempt(samecell.check, rep, 'MUL', {'ec_mul'}, ['SRC'], ['DEST'], 4, typed=True)
     import lanemacro
     rep.attempt(lanemacro.check, rep, 'MAD', {'ec_mad'}, 1100)
+    import tailmask
+    rep.attempt(tailmask.check, rep, 250)
     return rep.finish()
